@@ -417,6 +417,24 @@ def lpCycle (P : LP α) (maxIter : Nat) (tol : Tol α) : Nat × Nat × Bool × B
     let res := solveTableauSeen tol true maxIter T1 r1.basis []
     (res.1, res.2.1, res.2.2, lexRowsOK r1.T, r1.iters - r.iters, st.2)
 
+/-! ### `minmax`: the tableau handed to `solve_tableau` and the tie guard -/
+
+/-- the tableau after `_pivoting(tableau, n, pivrow); _pivoting(tableau, 0, m)` (minmax.py:84-85) -/
+def mmStartT (A : Nat → Nat → α) (m n : Nat) : M α :=
+  pivot (pivot (mmTableau A m n) n (mmPivRow (mmTableau A m n) m)) 0 m
+
+/-- the basis array built by minmax.py:87-89 -/
+def mmBasisT (A : Nat → Nat → α) (m n : Nat) : List Nat :=
+  (((List.range (m + 1)).map fun i => n + 1 + i).set (mmPivRow (mmTableau A m n) m) n).set m 0
+
+/-- column 0 of `A` attains its maximum in exactly one row (the row `minmax` picks as `pivrow`) -/
+def minmaxUniqueMax (A : Nat → Nat → α) (m n : Nat) : Bool :=
+  let pr := mmPivRow (mmTableau A m n) m
+  (List.range m).all fun i => decide (i = pr) || decide (A i 0 < A pr 0)
+
+/-- the rows `solve_tableau` starts from inside `minmax` are lexicographically positive -/
+def minmaxLexOK (A : Nat → Nat → α) (m n : Nat) : Bool := lexRowsOK (mmStartT A m n)
+
 /-! ### line protocol -/
 
 instance : Zero Float := ⟨0.0⟩
@@ -526,6 +544,24 @@ def handleSc (sc : Sc β) (toks : List String) : String :=
       if m ≥ 1 && n ≥ 1 && rectangular A m n then
         let res := minmax (fnOfMat A) m n mi tol
         s!"st={res.status} it={res.iters} v={sc.shw res.v} x={showList sc.shw res.x} y={showList sc.shw res.y}"
+      else "bad-op"
+    | _, _, _, _, _ => "bad-op"
+  | "mmguard" :: r =>
+    match kvNat r "m", kvNat r "n", sc.mat r "A", kvNat r "maxiter", kvTol sc r with
+    | some m, some n, some A, some mi, some tol =>
+      if m ≥ 1 && n ≥ 1 && rectangular A m n then
+        let Af := fnOfMat A
+        let res := solveTableauSeen tol false (mi - 2) (mmStartT Af m n) (mmBasisT Af m n) []
+        s!"pivrow={mmPivRow (mmTableau Af m n) m} uniq={showBool (minmaxUniqueMax Af m n)}" ++
+        s!" lexok={showBool (minmaxLexOK Af m n)} st={res.1} pivots={res.2.1} cycled={showBool res.2.2}"
+      else "bad-op"
+    | _, _, _, _, _ => "bad-op"
+  | "solvetab" :: r =>
+    match kvTab sc r, kvNats r "basis", kv r "skip", kvNat r "maxiter", kvTol sc r with
+    | some T, some b, some sk, some mi, some tol =>
+      if (sk == "0" || sk == "1") && T.nr ≥ 1 && T.nr ≤ T.nc && b.length + 1 == T.nr then
+        let res := solveTableau tol (sk == "1") mi T b
+        s!"st={res.status} it={res.iters} basis={showList toString res.basis} T={showMat sc.shw res.T.toRows}"
       else "bad-op"
     | _, _, _, _, _ => "bad-op"
   | "pivot" :: r =>
